@@ -22,13 +22,18 @@ from ..ref import dense, gls, implicit
 
 ID = 'C08'
 LEVEL = 'exploration'
-DECIDING = ['tap:least_squares', 'tap:total_least_squares', 'stationarity_judged', 'sensitivities_judged', 'refit_experiments_judged', 'tls_limit_judged', 'fit_lin_judged']
+DECIDING = ['tap:least_squares', 'tap:total_least_squares', 'stationarity_judged', 'sensitivities_judged', 'refit_experiments_judged', 'tls_limit_judged', 'fit_lin_judged',
+            'stored_state_monitored', 'alias_cases_judged', 'histories_judged', 'scale_pairs_judged', 'options_judged', 'boundary_cases_judged']
 RULE = ('cases: models a exp(-b x), c exp(-b x), a exp(-b x) + c, a cosh(b (x - c)), (a + b x)/(1 + c x), two exponentials, two models with '
         'two-dimensional x and a combined fit sharing a parameter; 1-4 parameters, k+1..k+6 points, relative errors 1e-3..3e-2, each point on its '
         'own ensemble or all on a shared one (AR noise, common mode), least_squares uncorrelated / estimated correlation / supplied factor, with '
         'and without priors (Obs and strings), LM / migrad / Nelder-Mead / Powell, autograd / num_grad; total_least_squares with x observables '
         '(1-2 dimensions, x and y on separate or common ensembles); fit_lin with numbers / observables / a mixture as x; problems with cond(H) > 1e8, an indefinite Hessian or an unreliable '
-        'finite-difference reference are discarded and counted; non-trivial: >= 2 parameters, at least one redundant point and non-zero '
+        'finite-difference reference are discarded and counted; hardening kinds: alias (the same Obs as two data points; as abscissa of two points; as '
+        'abscissa of one and ordinate of another point), history (problems equal in everything but the numbers fitted A B A, class-level analysis '
+        'parameters set during the middle fit), scale (units of y times 1e-8 .. 1e8: amplitudes scale, rates do not), options (tuple / ndarray '
+        'containers, silent=False, expected_chisquare, tol), boundary (points == parameters); around every primary fit: digest of the inputs incl. '
+        'stored analysis before/after, class-level parameters, no shared fluctuation arrays; non-trivial: >= 2 parameters, at least one redundant point and non-zero '
         'fluctuations compared; distinct = digest of (data, abscissae, model, priors, options)')
 ASSUMPTIONS = ['the implicit-function rule is judged at the point the minimiser returned (stationarity is judged separately)',
                'stationarity in units of the parameter error: Levenberg-Marquardt 1e-6 + 2e-7 sqrt(cond chi2) (forward-difference Jacobian), '
@@ -36,7 +41,7 @@ ASSUMPTIONS = ['the implicit-function rule is judged at the point the minimiser 
                'sensitivities: 1e-5 of the no-cancellation scale (autograd), 2e-4 (num_grad), plus 1e-13 cond(H)',
                're-fit experiment: central differences at eps = 0.1, 0.05 (LM) / 0.4, 0.2 (ODR) errors, Richardson-extrapolated; tolerance (2e-4 + 3 d_LM/0.05) resp. (1e-3 + 3 d_ODR/0.2) of |S_ki| + sigma_k/error_i plus half the difference of the two estimates, d = admissible distance of a returned point from the minimum (limits what a re-fit can resolve)',
                'reference Hessians: Richardson-extrapolated central differences of complex-step gradients; problems on which the two step '
-               'sizes disagree by more than 1e-4 are discarded',
+               'sizes disagree by more than 1e-4, or by more than 10 / cond(H), are discarded',
                'num_grad (numdifftools probes steps up to > 100% of the arguments) is judged for the rational models only where every denominator lies in [0.5, 10] (measured accuracy there < 2e-7; 1e-5 at 0.25; lost at 0.17) - next to a pole is not a smooth region',
                'replica means of the fitted parameters are not part of the property']
 BUDGET = {'quick': 40, 'thorough': 480}
@@ -111,7 +116,8 @@ def teardown(ctx):
 
 def plan(tier):
     m = 1 if tier == 'quick' else 30
-    return [('ls', 360 * m), ('tls', 120 * m), ('tls_limit', 48 * m), ('fit_lin', 24 * m)]
+    return [('ls', 240 * m), ('tls', 80 * m), ('tls_limit', 40 * m), ('fit_lin', 24 * m), ('alias', 40 * m), ('history', 36 * m), ('scale', 54 * m),
+            ('options', 42 * m), ('boundary', 24 * m)]
 
 
 # ------------------------------------------------------------------------------------------
@@ -144,26 +150,123 @@ def make_obs_list(rng, means, rel, shared, names, nconf, tau, ens='ens'):
     return out
 
 
+def rand_gm_kwargs(rng):
+    """Analysis parameters away from the defaults (S = 2, tau_exp = 0, N_sigma = 1)."""
+    kw = {'S': float(rng.choice([0, 1, 2]))}
+    if rng.random() < 0.2:
+        kw = {'S': float(rng.choice([1, 2, 3])), 'tau_exp': float(rng.choice([1.5, 4.0])), 'N_sigma': float(rng.choice([1, 2]))}
+    return kw
+
+
 def analyse(rng, objs):
-    """gamma_method with a remembered S (needed to re-analyse shifted copies with identical weights)."""
+    """gamma_method with remembered parameters (needed to re-analyse shifted / scaled / cloned copies with identical weights)."""
     S = {}
     for o in objs:
-        s = float(rng.choice([0, 1, 2]))
-        o.gamma_method(S=s)
+        kw = rand_gm_kwargs(rng)
+        try:
+            o.gamma_method(**kw)
+        except ValueError:
+            raise Skip() from None
         if not o.dvalue > 0:
             raise Skip()
-        S[id(o)] = s
+        S[id(o)] = kw
     return S
 
 
 def shifted(o, s, S):
     """Same fluctuations, central value moved by s, analysed with the same parameters."""
     n = o + s
-    n.gamma_method(S=S[id(o)])
+    n.gamma_method(**S[id(o)])
     if abs(n.dvalue - o.dvalue) > 1e-12 * o.dvalue:
         raise RuntimeError('harness: shifted copy has a different error')
     S[id(n)] = S[id(o)]
     return n
+
+
+# ------------------------------------------------------------------------------------------
+# stored-state monitors around a fit (hardening items 5 and 7)
+def analysis_digest(o):
+    parts = [obs_digest(o), repr(getattr(o, '_dvalue', None)), repr(getattr(o, 'ddvalue', None))]
+    for a in ('e_dvalue', 'e_ddvalue', 'e_tauint', 'e_dtauint', 'e_windowsize', 'S', 'tau_exp', 'N_sigma', 'e_rho', 'e_drho', 'e_n_tauint'):
+        d = getattr(o, a, None)
+        if isinstance(d, dict):
+            parts.append([(k_, np.asarray(v).tobytes() if isinstance(v, np.ndarray) else repr(v)) for k_, v in sorted(d.items())])
+        else:
+            parts.append(repr(d))
+    return digest(*parts)
+
+
+def unique(objs):
+    seen, out = set(), []
+    for o in objs:
+        if id(o) not in seen:
+            seen.add(id(o))
+            out.append(o)
+    return out
+
+
+class class_state:
+    """Class-level analysis parameters differing from everything stored on the inputs while the fit runs."""
+
+    def __init__(self, inputs, active):
+        self.inputs, self.active = inputs, active
+
+    def state(self):
+        O = PE.Obs
+        return (O.S_global, dict(O.S_dict), O.tau_exp_global, dict(O.tau_exp_dict), O.N_sigma_global, dict(O.N_sigma_dict))
+
+    def __enter__(self):
+        O = PE.Obs
+        self.saved = self.state()
+        if self.active:
+            O.S_global, O.tau_exp_global, O.N_sigma_global = 7.0, 3.0, 2.0
+            for o in self.inputs:
+                for e in o.mc_names:
+                    O.S_dict[e] = 0.25
+                    O.tau_exp_dict[e] = 6.0
+                    O.N_sigma_dict[e] = 3.0
+        self.during = self.state()
+        return self
+
+    def __exit__(self, *a):
+        O = PE.Obs
+        self.after = self.state()
+        O.S_global, sd, O.tau_exp_global, td, O.N_sigma_global, nd = self.saved
+        for d_, v in ((O.S_dict, sd), (O.tau_exp_dict, td), (O.N_sigma_dict, nd)):
+            d_.clear()
+            d_.update(v)
+
+
+def guarded(ctx, inputs, mech, perturb, call):
+    """call() runs one fit; its inputs (data and stored analysis) and the class-level parameters must be what they were, and the
+    result must not share fluctuation arrays with the inputs or between parameters."""
+    inputs = unique(inputs)
+    before = [analysis_digest(o) for o in inputs]
+    with class_state(inputs, perturb) as cs:
+        res = call()
+    after = [analysis_digest(o) for o in inputs]
+    changed = [i for i, (a_, b_) in enumerate(zip(before, after)) if a_ != b_]
+    ctx.ev()
+    if changed:
+        o = inputs[changed[0]]
+        ctx.violation(mech + ':inputs-changed-by-fit', {'input': changed[0], 'names': list(o.names), 'dvalue_now': getattr(o, '_dvalue', None)})
+    ctx.require(cs.after == cs.during, mech + ':class-level-parameters-changed-by-fit', {'during': repr(cs.during)[:300], 'after': repr(cs.after)[:300]})
+    ctx.count('stored_state_monitored')
+    if perturb:
+        ctx.count('fits_with_class_level_parameters_set')
+    if res is not None:
+        ok = True
+        ps = list(res.fit_parameters)
+        for i, p_ in enumerate(ps):
+            for n in p_.deltas:
+                for o in inputs:
+                    if n in o.deltas and np.shares_memory(p_.deltas[n], o.deltas[n]):
+                        ok = False
+                for q in ps[i + 1:]:
+                    if n in q.deltas and np.shares_memory(p_.deltas[n], q.deltas[n]):
+                        ok = False
+        ctx.require(ok, mech + ':result-shares-fluctuation-array', None)
+    return res
 
 
 # ------------------------------------------------------------------------------------------
@@ -297,9 +400,11 @@ def odr_tol(chi2):
     return 1e-5 + 4.0 * float(np.sqrt(1.5e-8 * max(1.0, chi2)))
 
 
-def refit_derivative(refit, err, eps_pair):
+def refit_derivative(refit, err, eps_pair, p0=None, sigma=None):
     """Central differences of the re-fitted parameters for shifts +-eps*err with two step sizes, Richardson-extrapolated.
-    Returns (derivative, |difference of the two estimates|) or (None, None) when a re-fit did not converge."""
+    Returns (derivative, |difference of the two estimates|); (None, None) when a re-fit did not converge; (None, 'jump') when the
+    midpoint of the two re-fits lies away from the original solution by more than max(5%, eps^2) of a parameter error although the
+    shifts are first-order small: the re-fits ended in another minimum (several minima: outside the quantifier)."""
     est = []
     for eps in eps_pair:
         out = []
@@ -308,6 +413,8 @@ def refit_derivative(refit, err, eps_pair):
             if r is None:
                 return None, None
             out.append(np.array([float(p.value) for p in r.fit_parameters]))
+        if p0 is not None and np.any(np.abs(0.5 * (out[0] + out[1]) - p0) > max(0.05, eps ** 2) * sigma):
+            return None, 'jump'
         est.append((out[0] - out[1]) / (2 * eps * err))
     return (4 * est[1] - est[0]) / 3, np.abs(est[1] - est[0])
 
@@ -319,7 +426,9 @@ def usable(ctx, a):
     if not a['posdef']:
         ctx.count('discarded_indefinite_hessian')
         raise Skip()
-    if a['richardson_disagreement'] > 1e-4 or a['asym'] > 1e-7:
+    if a['richardson_disagreement'] > 1e-4 or a['asym'] > 1e-7 or a['cond'] * a['richardson_disagreement'] > 10.0:
+        # the extrapolated Hessian is good to a small fraction of the disagreement of the two step sizes; the sensitivities inherit that
+        # error times cond(H): beyond cond * disagreement = 10 the reference cannot promise 1e-5
         ctx.count('discarded_reference_unreliable')
         raise Skip()
 
@@ -455,7 +564,7 @@ def run_ls(ctx, idx, rng):
                 ctx.count('library_refused_singular_hessian')
                 raise Skip() from None
             raise
-    res = fit(yarg, priors, guess)
+    res = guarded(ctx, list(ys) + [v for _, kind_, v in spec if kind_ == 'obs'], 'ls', bool((idx // 5) % 2), lambda: fit(yarg, priors, guess))
     if res is None:
         ctx.count('not_converged:' + o['method'])
         raise Skip()
@@ -539,9 +648,9 @@ def run_ls(ctx, idx, rng):
                     pr = list(priors)
                     pr[[q[0] for q in spec].index(m)] = pn
                 return fit(yarg, pr, pv, values_only=True)
-            fd, spread = refit_derivative(refit, errs[i], LS_EPS)
+            fd, spread = refit_derivative(refit, errs[i], LS_EPS, pv, a['sigma'])
             if fd is None:
-                ctx.count('refit_not_converged')
+                ctx.count('refit_outside_linear_regime' if spread == 'jump' else 'refit_not_converged')
                 continue
             size = np.abs(Sext[:, i]) + a['sigma'] / errs[i]
             if np.any(spread > 0.05 * size):
@@ -624,7 +733,7 @@ def run_tls(ctx, idx, rng):
     k, dim, n, M = P['k'], P['dim'], P['n'], P['M']
     num_grad = (idx // 5) % 4 == 3
     guess = P['ptrue'] * (1 + 0.03 * rng.normal(size=k))
-    res = tls_fit(P, P['xarg'], P['ys'], guess, num_grad)
+    res = guarded(ctx, [o_ for row in P['xs'] for o_ in row] + list(P['ys']), 'tls', bool((idx // 3) % 2), lambda: tls_fit(P, P['xarg'], P['ys'], guess, num_grad))
     if res is None:
         ctx.count('not_converged:ODR')
         raise Skip()
@@ -684,9 +793,9 @@ def run_tls(ctx, idx, rng):
                 else:
                     ys2[i - m] = shifted(P['ys'][i - m], s_, P['S'])
                 return tls_fit(P, xs2[0] if dim == 1 else xs2, ys2, beta, False)
-            fd, spread = refit_derivative(refit, errs[i], TLS_EPS)
+            fd, spread = refit_derivative(refit, errs[i], TLS_EPS, beta, sig)
             if fd is None:
-                ctx.count('refit_not_converged')
+                ctx.count('refit_outside_linear_regime' if spread == 'jump' else 'refit_not_converged')
                 continue
             size = np.abs(Sext[:, i]) + sig / errs[i]
             if np.any(spread > 0.05 * size):
@@ -734,7 +843,14 @@ def run_tls_limit(ctx, idx, rng):
     ctx.ev(k)
     note('tls-limit:values', d / vtol, ctx.case)
     if np.any(d > vtol):
-        ctx.violation('tls-limit:values', {'what': what, 'difference_in_sigma': d, 'tls': pt, 'ordinary': po})
+        # different points: a violation unless both are minima of the ordinary chi-square (several minima: outside the quantifier)
+        ap = implicit.ls_analysis(lambda p, _: M['ref'](p, xnum), pt, None, yv, np.diag(1.0 / dy), dy=dy)
+        if ap['posdef'] and np.all(np.abs(ap['newton']) / ap['sigma'] <= odr_tol(ap['chi2'])) \
+                and np.all(np.abs(a['newton']) / a['sigma'] <= 1e-6 + 2e-7 * float(np.sqrt(a['cond'] * max(1.0, a['chi2'])))):
+            ctx.count('discarded_several_minima')
+            raise Skip()
+        ctx.violation('tls-limit:values', {'what': what, 'difference_in_sigma': d, 'tls': pt, 'ordinary': po,
+                                           'newton_step_of_tls_point_in_ordinary_chisquare': np.abs(ap['newton']) / ap['sigma'] if ap['posdef'] else None})
     ctx.close(rt.odr_chisquare, ro.chisquare, 'tls-limit:chisquare', what, rtol=1e-5, scale=max(1.0, float(ro.chisquare)))
     ctx.equal(int(rt.dof), int(ro.dof), 'tls-limit:dof', what)
     # y-sensitivities: the y part of the TLS fluctuations against (a) the implicit-function matrix of the ordinary chi-square at
@@ -758,6 +874,487 @@ def run_tls_limit(ctx, idx, rng):
         if k >= 2:
             ctx.nontrivial.add(digest([obs_digest(o_) for o_ in P['ys']], P['name'], 'limit'))
     ctx.sample({'tls_limit': P['name'], 'tls': pt, 'ordinary': po, 'difference_in_sigma': d})
+
+
+# ------------------------------------------------------------------------------------------
+# hardening kinds: the same object in several slots, histories, units, options / representation, boundaries
+AMP = {'exp2': [0], 'expc': [0, 2], 'cosh': [0], 'rat': [0, 1], 'dexp': [0, 2], 'xy': [0, 2], 'ratxy': [0]}     # parameters that scale with y
+
+
+def lm_tol(a, cond=None):
+    return 1e-6 + 2e-7 * float(np.sqrt((a['cond'] if cond is None else cond) * max(1.0, a['chi2'])))
+
+
+def build_ls(ctx, rng, name, method='Levenberg-Marquardt', num_grad=False, weights='diag', priors='none', shared=None, n=None, near_duplicate=False):
+    """A least_squares problem as a dictionary (data, priors, options); nothing is fitted here."""
+    M = MODELS[name]
+    k = M['k']
+    ptrue = np.array(M['ptrue'](rng))
+    n = n or k + int(rng.integers(1, 6))
+    x = np.array(M['x'](rng, n), dtype=float)
+    dup = None
+    if near_duplicate and n >= 3:
+        i, j = [int(v) for v in rng.choice(n, size=2, replace=False)]
+        x[..., j] = x[..., i] * (1 + 1e-4)                  # the same Obs will be used for both points
+        dup = (i, j)
+    means = np.real(M['ref'](ptrue, x))
+    shared = bool(rng.integers(0, 2)) if shared is None else shared
+    if weights == 'estimated':
+        shared = True
+    names = [str(e) for e in rng.permutation(ENS_NAMES)[:n]]
+    nconf = int(rng.integers(max(40, 6 * n), max(80, 6 * n) + 1))
+    ys = make_obs_list(rng, means, float(rng.choice([1e-3, 1e-2, 3e-2])), shared, names, nconf, float(rng.choice([0, 0, 2])))
+    S = analyse(rng, ys)
+    if dup:
+        ys[dup[1]] = ys[dup[0]]
+    spec = []
+    if priors == 'obs':
+        for m in rng.permutation(k)[:int(rng.integers(1, k + 1))].tolist():
+            err = abs(ptrue[m]) * float(rng.uniform(0.02, 0.3))
+            nn = int(rng.integers(25, 60))
+            po = PE.Obs([ptrue[m] + err * float(rng.normal()) + err * np.sqrt(nn) * rng.normal(size=nn)], ['pr%d' % m])
+            spec.append((int(m), 'obs', po))
+        S.update(analyse(rng, [v for _, _, v in spec]))
+    Lsup = None
+    if weights == 'supplied':
+        dy = np.array([float(v.dvalue) for v in ys])
+        a_ = rng.normal(size=(n, n + 2))
+        c = a_ @ a_.T
+        d = 1 / np.sqrt(np.diag(c))
+        corr = 0.5 * c * d[:, None] * d[None, :] + 0.5 * np.eye(n)
+        err = dy * rng.uniform(0.7, 1.5, size=n)
+        Lsup = np.tril(np.linalg.inv(np.linalg.cholesky(corr * np.outer(err, err))))
+    return dict(kind='ls', name=name, M=M, k=k, n=n, x=x, ys=ys, spec=spec, S=S, ptrue=ptrue, method=method, num_grad=num_grad, weights=weights,
+                Lsup=Lsup, guess=ptrue * (1 + 0.03 * rng.normal(size=k)), pscale=np.ones(k), extra_kw={}, xform='ndarray')
+
+
+def ls_call(P):
+    kw = dict(P['extra_kw'])
+    if P['weights'] != 'diag':
+        kw['correlated_fit'] = True
+    if P['weights'] == 'supplied':
+        kw['inv_chol_cov_matrix'] = [P['Lsup'], ['']]
+    if P['method'] != 'Levenberg-Marquardt':
+        kw['method'] = P['method']
+    if P['num_grad']:
+        kw['num_grad'] = True
+    kw['initial_guess'] = [float(v) for v in P['guess']]
+    silent = kw.pop('silent', True)
+    priors = {m: v for m, _, v in P['spec']} if P['spec'] else None
+    x = P['x']
+    if P['xform'] == 'list':
+        x = x.tolist()
+    elif P['xform'] == 'tuple':
+        x = tuple(x.tolist()) if x.ndim == 1 else tuple(tuple(r) for r in x.tolist())
+    y = P['ys']
+    if P['xform'] == 'tuple':
+        arr = np.empty(2 * len(y), dtype=object)
+        arr[::2] = list(y)
+        y = arr[::2]
+    try:
+        return PE.fits.least_squares(x, y, P['M']['lib'], priors=priors, silent=silent, **kw)
+    except Exception as e:
+        if 'did not converge' in str(e) or 'Cannot invert hessian matrix' in str(e):
+            return None
+        raise
+
+
+def hard_ls(ctx, P, mech, what, perturb=False, cond_ref=None):
+    """Fit (with the stored-state monitors) and judge views (i) and (ii) of a least_squares problem."""
+    ys, spec, k, n = P['ys'], P['spec'], P['k'], P['n']
+    dy = np.array([float(v.dvalue) for v in ys])                         # weights present at call time
+    perr = [float(v.dvalue) for _, _, v in spec]
+    res = guarded(ctx, list(ys) + [v for _, _, v in spec], mech, perturb, lambda: ls_call(P))
+    if res is None:
+        ctx.count('not_converged:' + P['method'])
+        return None
+    pv = np.array([float(p.value) for p in res.fit_parameters])
+    snaps = [snap(v) for v in ys]
+    yv = np.array([s_['value'] for s_ in snaps])
+    if P['weights'] == 'diag':
+        L = np.diag(1.0 / dy)
+    elif P['weights'] == 'estimated':
+        corr = gls.corr_from_snapshots(snaps)
+        if not np.all(np.isfinite(corr)) or np.linalg.cond(corr) > 1e8:
+            raise Skip()
+        L = np.linalg.cholesky(gls.weights_from_corr(corr, dy)).T
+    else:
+        L = P['Lsup']
+    x = P['x']
+    a = implicit.ls_analysis(lambda p, _: P['M']['ref'](p, x), pv, None, yv, L, [m for m, _, _ in spec], [float(v.value) for _, _, v in spec], perr,
+                             dy=dy, pfloor=0.1 * P['pscale'])
+    if cond_ref is None:
+        usable(ctx, a)
+    else:
+        if not a['posdef'] or a['richardson_disagreement'] > 1e-4 or a['asym'] > 1e-7 or not a['cond_scaled'] < 1e8 or a['cond_scaled'] * a['richardson_disagreement'] > 10.0:
+            ctx.count('discarded_reference_unreliable')
+            raise Skip()
+    cond = a['cond'] if cond_ref is None else cond_ref
+    if P['num_grad']:
+        smooth_for_numerical_differentiation(ctx, P['name'], pv, x)
+    stol = lm_tol(a, cond) if P['method'] == 'Levenberg-Marquardt' else LS_VAL_TOL[P['method']]
+    step = np.abs(a['newton']) / a['sigma']
+    ctx.ev(k)
+    if np.any(step > stol):
+        ctx.violation(mech + ':not-stationary', {'what': what, 'newton_step_in_sigma': step, 'tol': stol, 'cond': a['cond']})
+    ctx.count('stationarity_judged')
+    ctx.close(res.chisquare, a['chi2'], mech + ':chisquare-at-returned-parameters', what, rtol=1e-8, scale=max(1.0, a['chi2']))
+    ctx.equal(int(res.dof), n - k + len(spec), mech + ':dof', what)
+    ctx.close(res.p_value, gls.chi2_sf(float(res.chisquare), n - k + len(spec)), mech + ':p_value', what, rtol=0.0, atol=1e-10)
+    rt = (2e-4 if P['num_grad'] else 1e-5) + 1e-13 * cond
+    ins = snaps + [snap(v) for _, _, v in spec]
+    errs = list(dy) + perr
+    Sref = np.hstack([a['Sy'], a['Sp']])
+    nontriv = judge_observables(ctx, res.fit_parameters, ins, errs, Sref, a['sigma'], rt, mech + ':implicit-function', what)
+    ctx.count('sensitivities_judged')
+    return dict(res=res, a=a, pv=pv, Sref=Sref, nontriv=nontriv, rt=rt)
+
+
+def build_tls(ctx, rng, name, layout=None, n=None):
+    M = MODELS[name]
+    k, dim = M['k'], M['dim']
+    ptrue = np.array(M['ptrue'](rng))
+    n = n or k + int(rng.integers(1, 5))
+    xt = np.array(M['x'](rng, n), dtype=float)
+    return dict(kind='tls', name=name, M=M, k=k, dim=dim, n=n, ptrue=ptrue, xt=xt, layout=layout or str(rng.choice(['separate', 'shared'])),
+                guess=ptrue * (1 + 0.03 * rng.normal(size=k)), pscale=np.ones(k), extra_kw={}, num_grad=False, xform='list')
+
+
+def tls_data(rng, P):
+    """Observables for the abscissae and ordinates of a TLS problem description."""
+    n, xt = P['n'], P['xt']
+    means = np.real(P['M']['ref'](P['ptrue'], xt))
+    rel = float(rng.choice([1e-3, 1e-2, 3e-2]))
+    relx = float(rng.choice([3e-3, 1e-2, 3e-2]))
+    nconf = int(rng.integers(max(40, 8 * n), max(90, 8 * n) + 1))
+    perm = [str(e) for e in rng.permutation(ENS_NAMES)] + ['Z%d' % i for i in range(3 * n)]
+    shared = P['layout'] == 'shared'
+    ys = make_obs_list(rng, means, rel, shared, perm[:n], nconf, 0)
+    xs = [make_obs_list(rng, r_, relx, shared, perm[(d_ + 1) * n:(d_ + 2) * n], nconf, 0) for d_, r_ in enumerate(np.atleast_2d(xt))]
+    P['xs'], P['ys'] = xs, ys
+    P['S'] = analyse(rng, ys + [o_ for row in xs for o_ in row])
+    return P
+
+
+def tls_call(P):
+    kw = dict(P['extra_kw'])
+    kw['initial_guess'] = [float(v) for v in P['guess']]
+    if P['num_grad']:
+        kw['num_grad'] = True
+    silent = kw.pop('silent', True)
+    xs = P['xs']
+    xarg = list(xs[0]) if P['dim'] == 1 else [list(r) for r in xs]
+    if P['xform'] == 'tuple':
+        xarg = tuple(xs[0]) if P['dim'] == 1 else tuple(list(r) for r in xs)          # 'a tuple of lists of Obs'
+    elif P['xform'] == 'ndarray':
+        xarg = np.array(xarg, dtype=object)
+    yarg = np.array(list(P['ys']), dtype=object) if P['xform'] == 'ndarray' else list(P['ys'])
+    try:
+        return PE.fits.total_least_squares(xarg, yarg, P['M']['lib'], silent=silent, **kw)
+    except Exception as e:
+        if 'did not converge' in str(e) or 'Cannot invert hessian matrix' in str(e):
+            return None
+        raise
+
+
+def hard_tls(ctx, P, mech, what, perturb=False, cond_ref=None):
+    k, dim, n, M = P['k'], P['dim'], P['n'], P['M']
+    xflat = [o_ for row in P['xs'] for o_ in row]
+    xv = np.array([[float(o_.value) for o_ in row] for row in P['xs']])
+    dx = np.array([[float(o_.dvalue) for o_ in row] for row in P['xs']])
+    if dim == 1:
+        xv, dx = xv[0], dx[0]
+    yv = np.array([float(o_.value) for o_ in P['ys']])
+    dy = np.array([float(o_.dvalue) for o_ in P['ys']])
+    res = guarded(ctx, xflat + list(P['ys']), mech, perturb, lambda: tls_call(P))
+    if res is None:
+        ctx.count('not_converged:ODR')
+        return None
+    beta = np.array([float(p.value) for p in res.fit_parameters])
+    xplus = np.asarray(res.xplus, dtype=float).reshape(xv.shape)
+    a = implicit.tls_analysis(M['ref'], beta, xplus, xv, dx, yv, dy, pfloor=0.1 * P['pscale'])
+    if cond_ref is None:
+        usable(ctx, a)
+    elif not a['posdef'] or a['richardson_disagreement'] > 1e-4 or a['asym'] > 1e-7 or not a['cond_scaled'] < 1e8 or a['cond_scaled'] * a['richardson_disagreement'] > 10.0:
+        ctx.count('discarded_reference_unreliable')
+        raise Skip()
+    cond = a['cond'] if cond_ref is None else cond_ref
+    if P['num_grad']:
+        smooth_for_numerical_differentiation(ctx, P['name'], beta, xplus)
+    step = np.abs(a['newton']) / a['sigma']
+    stol = odr_tol(a['chi2'])
+    ctx.ev(len(step))
+    if np.any(step > stol):
+        ctx.violation(mech + ':not-stationary', {'what': what, 'newton_step_in_sigma': step, 'tol': stol, 'cond': a['cond']})
+    ctx.count('stationarity_judged')
+    ctx.close(res.odr_chisquare, a['chi2'], mech + ':odr_chisquare-at-returned-point', what, rtol=1e-8, scale=max(1.0, a['chi2']))
+    ctx.equal(int(res.dof), n - k, mech + ':dof', what)
+    ctx.close(res.p_value, gls.chi2_sf(float(res.odr_chisquare), n - k), mech + ':p_value', what, rtol=0.0, atol=1e-10)
+    rt = (2e-4 if P['num_grad'] else 1e-5) + 1e-13 * cond
+    ins = [snap(o_) for o_ in xflat + list(P['ys'])]
+    errs = list(np.asarray(dx).ravel()) + list(dy)
+    Sref = np.hstack([a['Sx'][:k], a['Sy'][:k]])
+    nontriv = judge_observables(ctx, res.fit_parameters, ins, errs, Sref, a['sigma'][:k], rt, mech + ':implicit-function', what)
+    ctx.count('sensitivities_judged')
+    return dict(res=res, a=a, pv=beta, Sref=Sref, nontriv=nontriv, rt=rt)
+
+
+def record(res):
+    chi = res.chisquare if hasattr(res, 'chisquare') else res.odr_chisquare
+    return dict(params=[snap(o) for o in res.fit_parameters], chisquare=float(chi), dof=int(res.dof))
+
+
+def same_record(ctx, a, b, mech, what, rtol=1e-12):
+    ctx.close(a['chisquare'], b['chisquare'], mech + ':chisquare', what, rtol=rtol, scale=max(1.0, abs(b['chisquare'])))
+    ctx.equal(a['dof'], b['dof'], mech + ':dof', what)
+    for i, (pa, pb) in enumerate(zip(a['params'], b['params'])):
+        ctx.close(pa['value'], pb['value'], mech + ':value', '%s p[%d]' % (what, i), rtol=rtol)
+        ctx.equal(sorted(pa['chains']), sorted(pb['chains']), mech + ':chain-names', what)
+        for c in pa['chains']:
+            if c in pb['chains']:
+                ctx.close(pa['chains'][c][1], pb['chains'][c][1], mech + ':fluctuations', '%s p[%d] chain %s' % (what, i, c), rtol=rtol)
+
+
+def clone_obs(rng, o, S):
+    """Same chains, same configuration lists, same length, same analysis parameters - other numbers."""
+    names = [n_ for n_ in o.names if n_ not in o.cov_names]
+    samples = [o.r_values[n_] + rng.permutation(np.asarray(o.deltas[n_])) * float(rng.uniform(0.7, 1.3)) + float(rng.normal()) * o.dvalue for n_ in names]
+    c = PE.Obs(samples, names, idl=[o.idl[n_] for n_ in names])
+    c.gamma_method(**S[id(o)])
+    S[id(c)] = S[id(o)]
+    return c
+
+
+def clone_problem(rng, P):
+    Q = dict(P)
+    mp = {}
+
+    def cl(o):
+        if id(o) not in mp:
+            mp[id(o)] = clone_obs(rng, o, P['S'])
+        return mp[id(o)]
+    Q['ys'] = [cl(v) for v in P['ys']]
+    if P['kind'] == 'ls':
+        Q['spec'] = [(m, kind, cl(v)) for m, kind, v in P['spec']]
+    else:
+        Q['xs'] = [[cl(v) for v in row] for row in P['xs']]
+    return Q
+
+
+def run_alias(ctx, idx, rng):
+    """Checklist item 4: the same Obs as two data points (least squares), as the abscissa of two points, and as abscissa of one
+    point and ordinate of another (total least squares). Contributions must add up."""
+    variant = ['ls-same-object-two-points', 'tls-same-x-two-points', 'tls-object-is-x-and-y', 'ls-same-object-two-points'][idx % 4]
+    if variant.startswith('ls'):
+        name = ['exp2', 'expc', 'cosh', 'rat', 'xy', 'ratxy'][(idx // 4) % 6]
+        P = build_ls(ctx, rng, name, method=['Levenberg-Marquardt', 'migrad'][(idx // 8) % 2], weights=['diag', 'supplied'][(idx // 4) % 2],
+                     priors=['none', 'obs'][(idx // 16) % 2], near_duplicate=True)
+        out = hard_ls(ctx, P, 'alias:' + variant, '%s %s' % (variant, name), perturb=bool(idx % 2))
+        objs = P['ys']
+    else:
+        name = ['exp2', 'expc', 'cosh', 'rat'][(idx // 4) % 4]
+        P = build_tls(ctx, rng, name)
+        n, xt = P['n'], P['xt']
+        i, j = [int(v) for v in rng.choice(n, size=2, replace=False)]
+        if variant == 'tls-same-x-two-points':
+            xt[j] = xt[i]
+            tls_data(rng, P)
+            P['xs'][0][j] = P['xs'][0][i]
+        else:
+            # abscissa i takes the value of ordinate j, so that one object can play both roles
+            target = float(np.real(P['M']['ref'](P['ptrue'], xt))[j])
+            lo, hi = (0.0, 6.0) if name == 'cosh' else (0.2, 6.0)
+            if not lo <= target <= hi or abs(target - xt[j]) < 1e-3:
+                raise Skip()
+            xt[i] = target
+            tls_data(rng, P)
+            P['ys'][j] = P['xs'][0][i]
+        out = hard_tls(ctx, P, 'alias:' + variant, '%s %s %s' % (variant, name, P['layout']), perturb=bool(idx % 2))
+        objs = [o_ for row in P['xs'] for o_ in row] + list(P['ys'])
+    if out is None:
+        raise Skip()
+    ctx.cell('alias', variant, name)
+    ctx.count('alias_cases_judged')
+    if out['nontriv'] and P['k'] >= 2:
+        ctx.nontrivial.add(digest([obs_digest(v) for v in objs], variant, name))
+    ctx.sample({'alias': variant, 'model': name, 'slots': len(objs), 'distinct_objects': len(unique(objs)), 'returned_p': out['pv']})
+
+
+def run_history(ctx, idx, rng):
+    """Checklist items 3, 5, 7: problems A and B agree in shapes, abscissae, ensemble names, configuration lists and options and differ
+    in the numbers only; fitted A, B, A (or B, A, B) in one process, each judged, the repetition must reproduce the first result and the
+    first result object must not change when the other problem is fitted."""
+    tls = idx % 3 == 2
+    if tls:
+        name = ['exp2', 'expc', 'cosh', 'xy'][(idx // 3) % 4]
+        A = tls_data(rng, build_tls(ctx, rng, name))
+        A['num_grad'] = (idx // 12) % 3 == 2
+    else:
+        name = ['exp2', 'expc', 'cosh', 'rat', 'xy', 'ratxy'][(idx // 3) % 6]
+        A = build_ls(ctx, rng, name, method=['Levenberg-Marquardt', 'migrad', 'Levenberg-Marquardt', 'Nelder-Mead'][(idx // 2) % 4],
+                     weights=['diag', 'estimated', 'supplied'][(idx // 6) % 3], priors=['none', 'obs'][(idx // 18) % 2], num_grad=(idx // 4) % 4 == 3)
+    B = clone_problem(rng, A)
+    engine = hard_tls if tls else hard_ls
+    order = [('A', A), ('B', B), ('A', A)] if idx % 2 == 0 else [('B', B), ('A', A), ('B', B)]
+    what = 'history %s %s' % ('total_least_squares' if tls else 'least_squares', name)
+    first = None
+    for step, (nm, P) in enumerate(order):
+        out = engine(ctx, P, 'history:%d' % step, '%s step %d (%s)' % (what, step, nm), perturb=(step == 1))
+        if out is None:
+            raise Skip()
+        if step == 0:
+            first = (out['res'], record(out['res']))
+        elif step == 1:
+            same_record(ctx, record(first[0]), first[1], 'history:earlier-result-changed-by-later-fit', what, rtol=1e-15)
+        else:
+            same_record(ctx, record(out['res']), first[1], 'history:refit-after-other-data-differs', what, rtol=1e-12)
+    ctx.cell('history', 'tls' if tls else 'ls', name)
+    ctx.count('histories_judged')
+    if A['k'] >= 2:
+        ctx.nontrivial.add(digest([obs_digest(v) for v in A['ys']], [obs_digest(v) for v in B['ys']], name, tls))
+    ctx.sample({'history': [n_ for n_, _ in order], 'fit': 'total_least_squares' if tls else 'least_squares', 'model': name})
+
+
+SCALES = [1e-8, 1e-4, 1e-2, 1e2, 1e4, 1e8]
+
+
+def scaled_problem(P, c):
+    """y (and the priors on the amplitudes) times c; the amplitudes scale with c, the other parameters do not."""
+    Q = dict(P)
+    S = P['S']
+
+    def sc(o):
+        w = o * c
+        w.gamma_method(**S[id(o)])
+        S[id(w)] = S[id(o)]
+        return w
+    amp = AMP[P['name']]
+    Q['ys'] = [sc(v) for v in P['ys']]
+    ps = np.ones(P['k'])
+    ps[amp] = c
+    Q['pscale'] = ps
+    Q['guess'] = P['guess'] * ps
+    Q['ptrue'] = P['ptrue'] * ps
+    if P['kind'] == 'ls':
+        Q['spec'] = [(m, kind, sc(v) if m in amp else v) for m, kind, v in P['spec']]
+        if P['Lsup'] is not None:
+            Q['Lsup'] = P['Lsup'] / c
+    return Q
+
+
+def run_scale(ctx, idx, rng):
+    """Checklist item 6: a change of the units of y. chi-square, dof and p-value must not change, amplitudes and their fluctuations scale,
+    the other parameters stay; all tolerances are in units of the parameter errors."""
+    c = SCALES[idx % 6]
+    tls = (idx // 6) % 3 == 2
+    names = sorted(AMP)
+    name = names[(idx // 18) % len(names)]
+    # Powell for small and num_grad for large units are judged (and fire) in C07's sweep: same code path, not repeated here
+    num_grad = (idx // 7) % 3 == 2 and c <= 1e2
+    if tls:
+        P = tls_data(rng, build_tls(ctx, rng, name))
+        P['num_grad'] = num_grad
+        engine = hard_tls
+    else:
+        P = build_ls(ctx, rng, name, method=['Levenberg-Marquardt', 'migrad', 'Levenberg-Marquardt', 'Nelder-Mead'][(idx // 6) % 4],
+                     weights=['diag', 'estimated', 'supplied'][(idx // 36) % 3], priors=['none', 'obs'][(idx // 12) % 2], num_grad=num_grad)
+        engine = hard_ls
+    what = 'scale %g %s %s' % (c, 'tls' if tls else P['method'][:2], name)
+    u = engine(ctx, P, 'scale:unit', what + ' unit')
+    if u is None:
+        raise Skip()
+    Q = scaled_problem(P, c)
+    v = engine(ctx, Q, 'scale:scaled', what + ' scaled', cond_ref=u['a']['cond'])
+    if v is None:
+        raise Skip()
+    ps = Q['pscale']
+    k = P['k']
+    sig = u['a']['sigma'][:k]
+    vt = 2 * (odr_tol(u['a']['chi2']) if tls else (lm_tol(u['a']) if P['method'] == 'Levenberg-Marquardt' else LS_VAL_TOL[P['method']]))
+    d = np.abs(v['pv'] / ps - u['pv']) / sig
+    ctx.ev(k)
+    if np.any(d > vt):
+        ctx.violation('scale:not-covariant:value', {'what': what, 'difference_in_sigma': d, 'tol': vt})
+    cu = u['res'].odr_chisquare if tls else u['res'].chisquare
+    cv = v['res'].odr_chisquare if tls else v['res'].chisquare
+    ctx.close(cv, cu, 'scale:not-covariant:chisquare', what, rtol=1e-5 if (tls or P['method'] != 'Levenberg-Marquardt') else 1e-8, scale=max(1.0, float(cu)))
+    ctx.equal(int(v['res'].dof), int(u['res'].dof), 'scale:not-covariant:dof', what)
+    ctx.cell('scale', '%g' % c, 'tls' if tls else P['method'][:2])
+    ctx.count('scale_pairs_judged')
+    if k >= 2:
+        ctx.nontrivial.add(digest([obs_digest(o_) for o_ in P['ys']], c, name, tls))
+    ctx.sample({'scale': c, 'model': name, 'fit': 'tls' if tls else 'ls', 'unit_p': u['pv'], 'scaled_p_over_units': v['pv'] / ps, 'chi2': [float(cu), float(cv)]})
+
+
+def run_options(ctx, idx, rng):
+    """Checklist items 1 and 2: other containers for x and y, output switched on, expected_chisquare, tighter tol: the numbers stay."""
+    variant = ['tls-tuple', 'tls-ndarray', 'tls-expected-chisquare', 'ls-tuple', 'ls-list', 'ls-tol', 'tls-verbose'][idx % 7]
+    tls = variant.startswith('tls')
+    if tls:
+        name = ['exp2', 'xy', 'cosh', 'ratxy'][(idx // 7) % 4]
+        P = tls_data(rng, build_tls(ctx, rng, name))
+        engine = hard_tls
+    else:
+        name = ['exp2', 'xy', 'rat', 'ratxy', 'expc'][(idx // 7) % 5]
+        P = build_ls(ctx, rng, name, method=['migrad', 'Nelder-Mead', 'Powell'][(idx // 7) % 3] if variant == 'ls-tol' else 'Levenberg-Marquardt',
+                     weights=['diag', 'estimated', 'supplied'][(idx // 14) % 3], priors=['none', 'obs'][(idx // 7) % 2])
+        engine = hard_ls
+    what = 'options %s %s' % (variant, name)
+    base = engine(ctx, P, 'options:base', what + ' base')
+    if base is None:
+        raise Skip()
+    Q = dict(P)
+    Q['extra_kw'] = dict(P['extra_kw'])
+    if variant in ('tls-tuple', 'ls-tuple'):
+        Q['xform'] = 'tuple'
+    elif variant == 'tls-ndarray':
+        Q['xform'] = 'ndarray'
+    elif variant == 'ls-list':
+        Q['xform'] = 'list'
+    elif variant == 'tls-expected-chisquare':
+        Q['extra_kw'].update(expected_chisquare=True, silent=False)
+    elif variant == 'tls-verbose':
+        Q['extra_kw'].update(silent=False)
+    elif variant == 'ls-tol':
+        Q['extra_kw'].update(tol=1e-6 if P['method'] == 'migrad' else 1e-13)
+    var = engine(ctx, Q, 'options:' + variant, what)
+    if var is None:
+        raise Skip()
+    if variant == 'ls-tol':
+        d = np.abs(var['pv'] - base['pv']) / base['a']['sigma'][:P['k']]
+        ctx.require(np.all(d <= 2 * LS_VAL_TOL[P['method']]), 'options:tol-changes-result', {'what': what, 'difference_in_sigma': d})
+    else:
+        same_record(ctx, record(var['res']), record(base['res']), 'options:%s-changes-result' % variant, what, rtol=1e-12)
+    if variant == 'tls-expected-chisquare':
+        ctx.require(hasattr(var['res'], 'chisquare_by_expected_chisquare'), 'options:expected-chisquare-missing', what)
+    ctx.cell('options', variant, name)
+    ctx.count('options_judged')
+    if P['k'] >= 2:
+        ctx.nontrivial.add(digest([obs_digest(o_) for o_ in P['ys']], variant, name))
+
+
+def run_boundary(ctx, idx, rng):
+    """Checklist item 9: as many points as parameters (dof 0, chi-square 0, undefined p-value) and one point more."""
+    tls = idx % 2 == 1
+    extra = (idx // 2) % 2
+    if tls:
+        name = ['exp2', 'exp1', 'cosh', 'ratxy'][(idx // 4) % 4]
+        k = MODELS[name]['k']
+        P = tls_data(rng, build_tls(ctx, rng, name, n=k + extra))
+        out = hard_tls(ctx, P, 'boundary', 'boundary tls %s n=k+%d' % (name, extra))
+    else:
+        name = ['exp2', 'exp1', 'expc', 'cosh', 'rat', 'xy'][(idx // 4) % 6]
+        k = MODELS[name]['k']
+        P = build_ls(ctx, rng, name, n=k + extra, weights=['diag', 'supplied'][(idx // 8) % 2])
+        out = hard_ls(ctx, P, 'boundary', 'boundary ls %s n=k+%d' % (name, extra))
+    if out is None:
+        raise Skip()
+    if extra == 0:
+        ctx.require(np.isnan(out['res'].p_value), 'boundary:p-value-defined-for-zero-dof', {'p_value': out['res'].p_value})
+    ctx.cell('boundary', 'tls' if tls else 'ls', 'n=k+%d' % extra)
+    ctx.count('boundary_cases_judged')
+    ctx.nontrivial.add(digest([obs_digest(o_) for o_ in P['ys']], name, extra, tls))
+
 
 
 def run_fit_lin(ctx, idx, rng):
@@ -824,6 +1421,9 @@ def run_case(ctx, kind, idx, rng):
                 ctx.count('not_converged:fit_lin')
                 raise Skip() from None
             raise
+    hard = {'alias': run_alias, 'history': run_history, 'scale': run_scale, 'options': run_options, 'boundary': run_boundary}
+    if kind in hard:
+        return hard[kind](ctx, idx, rng)
     if kind == 'ls':
         run_ls(ctx, idx, rng)
     elif kind == 'tls':
